@@ -9,3 +9,7 @@ import Aergo.Props.C10
 #print axioms Aergo.Props.C10.content_determines_tree
 #print axioms Aergo.Props.C10.addShortcut_is_sorted_insert
 #print axioms Aergo.Props.C10.batch_store_roundtrip
+#print axioms Aergo.Props.C10.get_from_store
+#print axioms Aergo.Props.C10.store_monotone
+#print axioms Aergo.Props.C10.old_roots_live
+#print axioms Aergo.Props.C10.history_roots_stay_readable
